@@ -24,6 +24,11 @@ Streams (DESIGN 3.2):
   flat   (a class of tensors inside the streams above) U33, U23, U13, U12 tiny but not all zero — sums of absolute values at and
          next to every decade 1e-3 … 1e-9, where code that decides "isotropic / q-peak / regular atom" by magnitude has its
          limits — in files, through every editing route and through add_atom: still a symmetric tensor, Ueq = tr(U_cart)/3
+  body   (a class of files inside the streams above; `ctx`) instructions BETWEEN the atoms - MOVE with 0/2/3/4 numbers and
+         either sign, PART, RESI, AFIX, SAME, ANIS, SPEC, MOLE, DFIX, REM - every kind in front of the first / a middle / the
+         last atom, MOVE forms also with edits afterwards.  The reference is then evaluated at the position the atom itself
+         reports (frac_coords): cart_coords, the conversions, the inverses and the lengths belong to that position whatever
+         the parser carried over from the lines before                                (parse_body_coherent, parse_body_cart)
 The oracle is the driver's spec (metric tensor only); `impl vs spec` is a property failure, `impl vs model` (the Float
 instance of the mirrored code) a correspondence failure.  Nothing but the observables of the statement is compared.
 """
@@ -286,6 +291,89 @@ def make_case(rng, cls=None, ukinds=None, us=None):
     return dict(cls=cls, cell=cell, atoms=atoms, pairs=pairs)
 
 
+# instructions that may stand between the atoms of a valid file and set state of the parser (the position of an atom in the
+# file, its residue / part / AFIX group, a MOVE that SHELXL applies to the atoms that follow, restraints, comments).  None of
+# them is part of the statement: whatever the atom reports as frac_coords, its cart_coords is the orthogonalisation of it.
+CTX_KINDS = ['MOVE4', 'MOVE4-', 'MOVE3', 'MOVE2', 'MOVE0', 'move', 'PART', 'PART-', 'RESI', 'AFIX', 'SAME', 'ANIS', 'SPEC', 'MOLE',
+             'DFIX', 'REM', 'MOVE+PART+RESI']
+
+
+def rshift(rng):
+    """three distinct non-zero shifts, none of them 0 or 1"""
+    return rng.sample([0.5, 0.25, -0.125, -0.5, 0.75, 1.5, -1.0, 0.3333, 0.1, -0.37, 2.0, 0.6667], 3)
+
+
+def ctx_lines(rng, kind, n=3):
+    dx, dy, dz = rshift(rng)
+    if kind == 'MOVE4':
+        return [f'MOVE {dx} {dy} {dz} 1']
+    if kind == 'MOVE4-':
+        return [f'MOVE {dx} {dy} {dz} -1']
+    if kind == 'MOVE3':
+        return [f'MOVE {dx} {dy} {dz}']
+    if kind == 'MOVE2':
+        return [f'MOVE {dx} {dy}']
+    if kind == 'MOVE0':
+        return ['MOVE']
+    if kind == 'move':
+        return [f'move  {dx:.4f}   {dy:.4f} {dz:.4f}  {rng.choice(["-1", "1", "-1.0"])}']
+    if kind == 'PART':
+        return [f'PART {rng.randint(1, 3)}']
+    if kind == 'PART-':
+        return [f'PART -{rng.randint(1, 2)}']
+    if kind == 'RESI':
+        return [f'RESI {rng.randint(1, 20)} {rng.choice(["ABC", "THF", "CCF3"])}']
+    if kind == 'AFIX':
+        return [f'AFIX {rng.choice([1, 3, 66, 56])}']
+    if kind == 'SAME':
+        return [f'SAME C1 > C{n}']
+    if kind == 'ANIS':
+        return ['ANIS']
+    if kind == 'SPEC':
+        return ['SPEC 0.1']
+    if kind == 'MOLE':
+        return [f'MOLE {rng.randint(1, 5)}']
+    if kind == 'DFIX':
+        return [f'DFIX 1.5 0.02 C1 C{n}']
+    if kind == 'REM':
+        return [f'REM MOVE {dx} {dy} {dz} -1']
+    return [f'MOVE {dx} {dy} {dz} {rng.choice([-1, 1])}', f'PART {rng.randint(1, 3)}', f'RESI {rng.randint(1, 20)} ABC']
+
+
+def add_ctx(rng, case, kinds=None, at=None):
+    """puts instructions in front of some atoms (`ctx`: one list of lines per atom); with `kinds` one line of every kind given,
+    in front of atom `at` (default: a random one, sometimes the first)"""
+    n = len(case['atoms'])
+    ctx = [[] for _ in range(n)]
+    if kinds:
+        for k in kinds:
+            ctx[rng.randrange(n) if at is None else at] += ctx_lines(rng, k, n)
+    else:
+        for _ in range(rng.randint(1, 3)):
+            ctx[rng.randrange(n)] += ctx_lines(rng, rng.choice(CTX_KINDS), n)
+    case['ctx'] = ctx
+    return case
+
+
+def ctx_cases(rng):
+    """every kind of instruction between the atoms x (in front of the first / a middle / the last atom) in an oblique cell, every
+    MOVE form also with a history of edits afterwards"""
+    cases = []
+    for n, kind in enumerate(CTX_KINDS):
+        for pos in (0, 1, -1):
+            c = make_case(rng, ['triclinic', 'monoclinic', 'hexagonal', 'rhombohedral', 'mono-gamma'][(n + pos) % 5])
+            add_ctx(rng, c, [kind], at=pos % len(c['atoms']))
+            cases.append(c)
+        if 'MOVE' in kind.upper():
+            c = make_case(rng, 'triclinic')
+            add_ctx(rng, c, [kind], at=n % 2)
+            c['edits'] = make_edits(rng, c)
+            if n % 3 == 0:
+                c['observe_each'] = True
+            cases.append(c)
+    return cases
+
+
 EDIT_OPS = ['uvals', 'uvals', 'set_uvals', 'uvals_item', 'to_isotropic', 'frac_coords', 'frac_coords', 'add_atom', 'uvals_iso',
             'set_cell', 'set_cell']
 
@@ -372,10 +460,15 @@ def fmt_u(v):
 def render(case):
     lines = ['TITL c12', cell_line(case['cell']),
              'ZERR 2 0.001 0.001 0.001 0.01 0.01 0.01', 'LATT -1', 'SFAC C H O', 'UNIT 8 16 4', 'FVAR 0.5']
+    ctx = case.get('ctx')
     for i, a in enumerate(case['atoms']):
+        if ctx:
+            lines += ctx[i]
         us = ' '.join(fmt_u(v) for v in a['u'])
         x, y, z = a['xyz']
         lines.append(f'C{i + 1:<3d} 1 {x:.6f} {y:.6f} {z:.6f} 11.00000 {us}')
+    if ctx:     # whatever was opened between the atoms is closed
+        lines += ['AFIX 0', 'PART 0', 'RESI 0']
     lines += ['HKLF 4', 'END']
     return '\n'.join(lines) + '\n'
 
@@ -425,9 +518,11 @@ def observe_impl(case):
         return dict(skipped0=True, edit=guard(lambda: observe_after_edits(shx, atoms, cl, case)))
     out = dict(V=guard(lambda: float(cell.volume)), det=guard(lambda: float(cell.o.m.det)), atoms=[], pairs=[])
     for a, spec in zip(atoms, case['atoms']):
-        xyz = spec['xyz']
+        frac = guard(lambda: as3(a.frac_coords))
+        # in a file with instructions between the atoms the statement is about the position the atom itself reports
+        xyz = frac if (case.get('ctx') and isinstance(frac, list) and len(frac) == 3) else spec['xyz']
         cart = guard(lambda: as3(a.cart_coords))
-        o = dict(cart=cart,
+        o = dict(cart=cart, frac=frac,
                  cart_shx=guard(lambda: as3(shx.frac_to_cart(list(xyz)))),
                  cart_misc=guard(lambda: as3(misc.frac_to_cart(list(xyz), list(cl)))))
         if isinstance(cart, list):
@@ -441,7 +536,8 @@ def observe_impl(case):
             o['npd'] = guard(lambda: bool(a.is_npd()))
         out['atoms'].append(o)
     for i, j in case['pairs']:
-        p1, p2 = case['atoms'][i]['xyz'], case['atoms'][j]['xyz']
+        p1, p2 = ((out['atoms'][i]['frac'], out['atoms'][j]['frac']) if case.get('ctx') else
+                  (case['atoms'][i]['xyz'], case['atoms'][j]['xyz']))
         c1, c2 = out['atoms'][i]['cart'], out['atoms'][j]['cart']
         out['pairs'].append(dict(
             dist=guard(lambda: float(atomic_distance(list(p1), list(p2), list(cl)))),
@@ -554,11 +650,68 @@ def u_full(u):
     return list(u) + [0.0] * (6 - len(u))
 
 
+def reported_positions(case, obs):
+    """a file with instructions between its atoms (`ctx`): the reference is evaluated at the fractional coordinates the atoms
+    themselves report (Atom.frac_coords) - the statement is that cart_coords, the conversion routines, the inverse and the
+    lengths all belong to THAT position, whatever an instruction in front of the atom did to it.  Files without: as written."""
+    if not case.get('ctx') or not isinstance(obs, dict) or 'atoms' not in obs:
+        return case
+    fr = [o.get('frac') for o in obs['atoms']]
+    if len(fr) != len(case['atoms']) or not all(isinstance(f, list) and len(f) == 3 and all(math.isfinite(t) for t in f) for f in fr):
+        return case
+    return dict(case, atoms=[dict(a, xyz=f, xyz_written=a['xyz']) for a, f in zip(case['atoms'], fr)])
+
+
+def as_written(case):
+    """the case as it was generated (replays render the file from it)"""
+    atoms = []
+    for a in case['atoms']:
+        a = dict(a)
+        if 'xyz_written' in a:
+            a['xyz'] = a.pop('xyz_written')
+        atoms.append(a)
+    return dict(case, atoms=atoms)
+
+
+def ctx_tags(case):
+    return sorted({'between-atoms=' + ln.split()[0].upper() + str(len(ln.split()) - 1 if ln.split()[0].upper() == 'MOVE' else '')
+                   for lines in case.get('ctx') or [] for ln in lines})
+
+
+def body_request(case):
+    lines = []
+    for a, before in zip(case['atoms'], case['ctx']):
+        for ln in before:
+            t = ln.split()
+            lines.append(dict(k='move', params=[float(v) for v in t[1:]]) if t[0].upper() == 'MOVE' else dict(k='other'))
+        lines.append(dict(k='atom', xyz=a['xyz'], u=u_full(a['u'])))
+    return dict(p='C12', op='body', cell=case['cell'], lines=lines)
+
+
+def check_body(ctx, case, obs, r):
+    """implementation vs the model of the parser (parseBody) and the model vs what the body says (specBody; theorem
+    parse_body_coherent): the atoms of the file in order, each at the position of its own line"""
+    if [m['frac'] for m in r['atoms']] != [m['frac'] for m in r['spec']] or not all(close3(m['cart'], t['cart']) for m, t in zip(r['atoms'], r['spec'])):
+        raise RuntimeError(f'Lean model and spec of the file body disagree: {r}')
+    if not isinstance(obs, dict) or 'atoms' not in obs or len(obs['atoms']) != len(r['atoms']):
+        return      # not read / nothing asked before the edits: reported elsewhere
+    for i, (o, m) in enumerate(zip(obs['atoms'], r['atoms'])):
+        pl = dict(case=dict(case, pairs=[], **({'edits': []} if 'edits' in case else {})), stream='cart', actual=o['frac'], model=m['frac'])
+        if not close3(o['frac'], m['frac'], 1e-12, 1e-12):
+            ctx.fail('C12|body|frac_coords|model', f'atom {i} behind {sum(case["ctx"][:i + 1], [])}: frac_coords {o["frac"]}, the model of '
+                     f'the parser gives the position written on its line {m["frac"]}', pl, kind='correspondence')
+        elif isinstance(o['cart'], list) and close3(o['cart'], r['spec'][i]['cart']) and not close3(o['cart'], m['cart']):
+            ctx.fail('C12|body|cart_coords|model', f'atom {i}: cart_coords {o["cart"]}, model of the parser {m["cart"]}',
+                     dict(pl, actual=o['cart'], model=m['cart']), kind='correspondence')
+
+
 def evaluate(ctx, cases, stream=None):
     reqs = []
     impls = []
-    for case in cases:
+    cases = list(cases)
+    for ci, case in enumerate(cases):
         impls.append(guard(lambda: observe_impl(case)))
+        case = cases[ci] = reported_positions(case, impls[-1])
         reqs.append(dict(p='C12', op='cell', cell=case['cell'], pts=[a['xyz'] for a in case['atoms']],
                          pairs=[[case['atoms'][i]['xyz'], case['atoms'][j]['xyz']] for i, j in case['pairs']],
                          us=[u_full(a['u']) for a in case['atoms']]))
@@ -577,9 +730,16 @@ def evaluate(ctx, cases, stream=None):
                                  pairs=[[st[i]['xyz'], st[(i + 1) % n]['xyz']] for i in range(n)], us=[a['u'] for a in st]))
                 for i, a in enumerate(st):      # the model of the object under the same history, atom by atom
                     reqs.append(hist_request(pc, a, i))
+    bodies = {}
+    for ci, case in enumerate(cases):
+        if case.get('ctx'):             # the model of the parser walking through the body of this file
+            bodies[ci] = len(reqs)
+            reqs.append(body_request(as_written(case)))
     ans = ctx.driver.batch(reqs)
     for s in ('cell', 'cart', 'dist', 'ueq', 'npd', 'edit'):
         ctx.stream(s)
+    for ci, q in bodies.items():
+        check_body(ctx, as_written(cases[ci]), impls[ci], ans[q])
     for ci, (case, obs, r) in enumerate(zip(cases, impls, ans[:nreq])):
         if ci in finals and not (isinstance(obs, str) or 'error' in obs):
             eo = obs.get('edit')
@@ -593,12 +753,15 @@ def evaluate(ctx, cases, stream=None):
         obl = cell_tag(case)
         base = dict(cls=cls, cell=case['cell'], **({'via': case['via']} if 'via' in case else {}))
         if isinstance(obs, str) or 'error' in obs:
-            ctx.fail(f'C12|parse|{cls}', f'generated valid file not read as expected: {obs}', dict(case=case, stream='cell', actual=obs),
+            ctx.fail(f'C12|parse|{cls}', f'generated valid file not read as expected: {obs}', dict(case=as_written(case), stream='cell', actual=obs),
                      kind='correspondence')
             continue
 
         def sub(idx, pairs=()):
             """the minimal case that reproduces an observation: the cell and the atoms involved"""
+            if case.get('ctx'):     # instructions between the atoms act on everything behind them: the file stays whole
+                w = as_written(case)
+                return dict(base, atoms=w['atoms'], ctx=w['ctx'], pairs=[[idx[0], idx[1]]] if pairs else [])
             return dict(base, atoms=[case['atoms'][i] for i in idx], pairs=[list(p) for p in pairs])
 
         # ---- cell -------------------------------------------------------------------------------------
@@ -616,7 +779,7 @@ def evaluate(ctx, cases, stream=None):
         for i, (a, o, rp) in enumerate(zip(case['atoms'], obs['atoms'], r['pts'])):
             xyz = a['xyz']
             nz = sum(1 for t in xyz if t != 0)
-            ctx.count(['cart', case['cell'], xyz], nontrivial=obl == 'oblique' and nz >= 2, tags=['cart', obl],
+            ctx.count(['cart', case['cell'], xyz, case.get('ctx')], nontrivial=obl == 'oblique' and nz >= 2, tags=['cart', obl] + ctx_tags(case),
                       sample=dict(stream='cart', cell=case['cell'], xyz=xyz, impl=o['cart'], spec=rp['spec_cart']) if obl == 'oblique' else None)
             for name, label in (('cart', 'Atom.cart_coords'), ('cart_shx', 'Shelxfile.frac_to_cart'), ('cart_misc', 'misc.frac_to_cart')):
                 got = o[name]
@@ -746,6 +909,8 @@ def check_edits(ctx, case, st, obs, r, hist):
 
     def sub(idx):
         """minimal history: the atoms involved and the edits that touch them"""
+        if case.get('ctx'):     # instructions between the atoms act on everything behind them: the file stays whole
+            return dict(as_written(case), pairs=[])
         idx = list(dict.fromkeys(idx))
         keep = [i for i in idx if st[i]['orig'] is not None] or [0]
         remap = {i: k for k, i in enumerate(keep)}
@@ -766,7 +931,7 @@ def check_edits(ctx, case, st, obs, r, hist):
 
     if isinstance(obs, str) or obs is None or 'error' in obs:
         ctx.fail(f'C12|edit|history|{obs if isinstance(obs, str) else "error"}'[:80],
-                 f'history {edits} on the parsed atoms failed: {obs}', dict(case=dict(case, pairs=[]), stream='edit', actual=obs))
+                 f'history {edits} on the parsed atoms failed: {obs}', dict(case=dict(as_written(case), pairs=[]), stream='edit', actual=obs))
         return
     ops = sorted({e['op'] for e in edits})
     fcell = final_cell(case)
@@ -991,10 +1156,13 @@ def run(ctx):
         ctx.extra['grid'] = 'all angle triples from {60, 75, 90, 105, 120} with positive volume'
     cases += flat_cases(ctx.rng)             # small systematic enumerations first (part of every run) …
     cases += cell_history_cases(ctx.rng)
+    cases += ctx_cases(ctx.rng)
     for k in range(n):                       # … random cases after
         cases.append(make_case(ctx.rng))
         if k % 10 == 0:
             cases[-1]['via'] = 'file'
+        if k % 5 == 1:                       # instructions between the atoms (MOVE, PART, RESI, AFIX, restraints, …)
+            add_ctx(ctx.rng, cases[-1])
     for _ in range(8000 if thorough else (1000 if (changed or ctx.escalated) else 500)):     # the class on which an unshifted eigenvalue iteration is slow
         cases.append(make_case(ctx.rng, ukinds=['eqmod']))
     for _ in range(4000 if thorough else (1200 if (changed or ctx.escalated) else 600)):      # a minor that is zero up to rounding
@@ -1008,6 +1176,8 @@ def run(ctx):
             c['observe_each'] = True       # … and everything is asked again after every single edit
         if ctx.rng.random() < 0.1:
             c['via'] = 'file'
+        if ctx.rng.random() < 0.2:
+            add_ctx(ctx.rng, c)
         if ctx.rng.random() < 0.15:
             # the object has read another cell before (unrelated, or sharing part of the six numbers)
             c['preread'] = make_cell(ctx.rng, ctx.rng.choice(CLASSES)) if ctx.rng.random() < 0.5 else vary_cell(ctx.rng, c['cell'])
